@@ -54,7 +54,7 @@ def make_case(ctx, idx):
     r = case_rng(ctx.seed, ID, idx)
     if r.random() < 0.5:
         return {"fmt": "json", "ops": gen.Gen(r, gen.profile("c01", multi_member=0.15)).program(), "opt": r.randrange(len(c01.OPTS))}
-    return {"fmt": "xml", "ops": gen.Gen(r, gen.profile("c02", multi_member=0.15)).program(), "dest": r.choice(["str", "bytes"])}
+    return {"fmt": "xml", "ops": gen.Gen(r, gen.profile("c02", multi_member=0.15, prov_alias_attrs=0.12)).program(), "dest": r.choice(["str", "bytes"])}
 
 
 def problems_json(doc, opt):
@@ -188,7 +188,8 @@ LEVEL_TEXT = ("Exploration by runtime observation with independent oracles: the 
               "force_types, text and binary targets) texts emitted for generated documents are read by readers written from the specifications "
               "that share no code with the library (own prefix scoping, literal denotation, container layout, schema child order), which also "
               "enforce the structural rules; their reading must equal the strict snapshot of the source, so a symmetric writer/reader mistake "
-              "or a renamed key is observable.")
+              "or a renamed key is observable. XML cases also name PROV's attributes through a namespace object of the caller's own "
+              "for the PROV namespace.")
 LEVEL_NOTE = ("Trusted: json, xml.etree/expat and our two readers (cross-validated on the shipped corpora). The keys of the PROV-JSON "
               "'bundle' object are document-level names: they must resolve, to the same URI, with the document's own prefix declarations "
               "(open finding KF-C10-1 for stand-alone bundles attached with add_bundle()).")
